@@ -35,7 +35,9 @@ def step (s0 : St) (toks : List String) : IO (St × Bool) := do
   let failing := ls.lockFails || ls.unlockFails
   match toks with
   | ["failsem", a, b] =>
-    IO.println "ok"; return ({ s with ls := { lockFails := a != "0", unlockFails := b != "0" } }, false)
+    -- `failsem 1 _`: the lock fails; `failsem N _` with N ≥ 2: the lock's sem_wait is interrupted N-1 times by a handled
+    -- signal before it is performed — transparent (C19's statement; the buffer ops are stated here for the lock that works)
+    IO.println "ok"; return ({ s with ls := { lockFails := a == "1", unlockFails := b != "0" } }, false)
   | ["null"] =>
     -- NULL buffer / name / storage: invalid argument (607, native code 0), −1 everywhere, no effect
     let tail := if (modulusOf s 0).isSome then "-1 -1" else "-1 -1"
